@@ -97,7 +97,7 @@ def run_op(op, ctx=None):
             p = ColorPair(dec(op["t"]), dec(op["b"]), op.get("large", False))
             ctx.slots[op["slot"]] = p
             ctx.slot_spec[op["slot"]] = {"t": op["t"], "b": op["b"], "large": op.get("large", False)}
-            out["ret"] = enc([p.is_valid, p.errors])
+            out["ret"] = enc([p.is_valid, p.errors, p.is_readable])
         elif kind == "make_on":
             p = ctx.slots[op["slot"]]
             before = _pair_state(p)
@@ -109,7 +109,7 @@ def run_op(op, ctx=None):
             out["mutated"] = None if (before == after and rb == ra) else {"before": before, "after": after, "readable": [rb, ra]}
         elif kind == "readable_on":
             p = ctx.slots[op["slot"]]
-            out["ret"] = enc([p.is_valid, p.is_readable])
+            out["ret"] = enc([p.is_valid, p.errors, p.is_readable])
         else:
             raise base.HarnessError("unknown op " + kind)
     except base.HarnessError:
